@@ -44,7 +44,7 @@ func init() {
 				}
 				return 80_000
 			}, Run: c17Renderer,
-				Min: map[string]int64{"pairs": 60000, "A_truncated_stream": 10000, "A_decode_error": 10000, "A_mid_path": 5000, "B_gradient_from_default_registers": 5000, "B_smooth_first": 5000, "draws_compared": 50000, "pixel_pairs": 2000}},
+				Min: map[string]int64{"pairs": 60000, "A_truncated_stream": 10000, "A_decode_error": 10000, "A_mid_path": 5000, "B_gradient_from_default_registers": 5000, "B_smooth_first": 5000, "draws_compared": 50000, "pixel_pairs": 2000, "A_other_rectangle": 10000}},
 		},
 	})
 }
@@ -381,15 +381,29 @@ func c17Renderer(c *run.Ctx, idx uint64) {
 	if c.WantSample() {
 		c.Sample(map[string]interface{}{"A_kind": kind, "A_bytes": len(bytesA), "B_bytes": hx(bytesB)})
 	}
+	// the Renderer may be pointed at another rasterizer / rectangle between decodes
+	rectA := rect
+	if r.Chance(1, 3) {
+		rectA = image.Rect(0, 0, r.Range(1, 300), r.Range(1, 300)).Add(image.Pt(r.Intn(90), r.Intn(90)))
+		c.Count("A_other_rectangle", 1)
+	}
 	probes := []image.Point{{0, 0}, {3, 5}, {rect.Dx() - 1, rect.Dy() - 1}}
 	var reused, fresh []rec.RCall
 	var errR, errF error
 	ok := c.Guard("renderer reuse", func() interface{} { return desc(nil) }, func() {
 		rz := &rec.Raster{Probes: probes}
 		var z render.Renderer
-		z.SetRasterizer(rz, rect)
+		z.SetRasterizer(rz, rectA)
 		if err := decode.Decode(&z, bytesA); err != nil {
 			c.Count("A_decode_error", 1)
+		}
+		if rectA != rect {
+			if r.Bool() {
+				z.SetRasterizer(rz, rect)
+			} else {
+				rz = &rec.Raster{Probes: probes}
+				z.SetRasterizer(rz, rect)
+			}
 		}
 		if r.Chance(1, 4) {
 			// the same Renderer also used directly in between
